@@ -343,8 +343,21 @@ func evaluate(srv *pvpeg.Server, pigeon, dir string, seed int64, i int, av pvpeg
 	// a destination that opens but cannot be written (a full device): "writes a complete parser and exits 0, or prints a
 	// diagnostic and exits non-zero" - exit 0 is then never right
 	unwritable := false
-	if _, serr := os.Stat("/dev/full"); serr == nil && !has["-debug"] && !has["-x"] && r.Intn(12) == 0 {
+	// (/dev/full must be the character device; when the sandbox lacks it only stdout is made unwritable: a descriptor
+	// opened read-only, on which every write fails with EBADF)
+	fi, serr := os.Stat("/dev/full")
+	devFull := serr == nil && fi.Mode()&os.ModeCharDevice != 0
+	if !has["-debug"] && !has["-x"] && r.Intn(12) == 0 {
 		unwritable = true
+		if outFile != "" && !devFull {
+			for k, fl := range flags {
+				if fl == outFile {
+					flags = append(flags[:k-1:k-1], flags[k+1:]...)
+					break
+				}
+			}
+			outFile = ""
+		}
 		if outFile != "" {
 			for k, fl := range flags {
 				if fl == outFile {
@@ -392,9 +405,15 @@ func evaluate(srv *pvpeg.Server, pigeon, dir string, seed int64, i int, av pvpeg
 		se.Reset()
 		cmd.Stdout, cmd.Stderr = &so, &se
 		if unwritable && outFile == "" {
-			if f, oerr := os.OpenFile("/dev/full", os.O_WRONLY, 0); oerr == nil {
+			dst, mode := "/dev/full", os.O_WRONLY
+			if !devFull {
+				dst, mode = os.Args[0], os.O_RDONLY
+			}
+			if f, oerr := os.OpenFile(dst, mode, 0); oerr == nil {
 				defer f.Close()
 				cmd.Stdout = f
+			} else {
+				unwritable = false
 			}
 		}
 		cmd.WaitDelay = time.Second
@@ -405,7 +424,7 @@ func evaluate(srv *pvpeg.Server, pigeon, dir string, seed int64, i int, av pvpeg
 			ctx = context.Background()
 			break
 		}
-		if outFile != "" {
+		if outFile != "" && !unwritable {
 			os.Remove(outFile)
 		}
 	}
